@@ -9,6 +9,7 @@ import ast
 
 from ..core import Rule
 from ..contract import describe_alt
+from ..pathsum import summarize, stores_params
 from ..model import AnalysisError, dotted, unparse, short
 from ..cfg import cfg_of
 from ..terms import fn_terms, walk, show
@@ -147,15 +148,20 @@ def check(repo):
             else:
                 r4.ok({"function": qual, "subject": subj, "declared": decl})
     kg = repo.func(AES, "AESxCBC.KeyGen")
-    r4.require(unparse(kg.node.body[-1]) == "return os.urandom(self.key_length)", kg, "KeyGen length", "AESxCBC.KeyGen no longer returns os.urandom(self.key_length)")
+    rets = [ps.ret for ps in summarize(kg) if ps.exc is None]
+    r4.require(bool(rets) and all(rt == ("call", ("fn", "os.urandom"), (("attr", ("var", "self"), "key_length"),), ()) for rt in rets), kg, "KeyGen length",
+               "AESxCBC.KeyGen no longer returns os.urandom(self.key_length)")
     ab = repo.func("toolkit/symmetric_encryption/abstraction.py", "AbstractSymmetricEncryption.__init__")
-    sab = unparse(ab.node)
-    r4.require(all(("self.%s = %s" % (x, x)) in sab for x in ("cipher_length", "key_length", "message_length")), ab, "declared lengths stored", "AbstractSymmetricEncryption no longer stores the declared lengths")
+    r4.require(stores_params(ab, ("cipher_length", "key_length", "message_length")), ab, "declared lengths stored", "AbstractSymmetricEncryption no longer stores the declared lengths")
     # ---- R14.5 registry
     reg = repo.func("toolkit/symmetric_encryption/__init__.py", "get_symmetric_encryption_implementation")
-    src = unparse(reg.node)
-    ok = all(x in src for x in ("'aes-cbc'", "'aes_cbc'", "'aescbc'")) and "AESxCBC" in src and isinstance(reg.node.body[-1], ast.Raise)
-    r5.require(ok, reg, "registry maps the three spellings", "get_symmetric_encryption_implementation no longer maps aes-cbc / aes_cbc / aescbc to AESxCBC or no longer raises for others")
+    from .c08 import registry_refuses
+    consts = {c.value for c in ast.walk(reg.node) if isinstance(c, ast.Constant) and isinstance(c.value, str)}
+    names = {n.id for n in ast.walk(reg.node) if isinstance(n, ast.Name)}
+    why = registry_refuses(reg)
+    ok = {"aes-cbc", "aes_cbc", "aescbc"} <= consts and "AESxCBC" in names and why is None
+    r5.require(ok, reg, "registry maps the three spellings", "get_symmetric_encryption_implementation no longer maps aes-cbc / aes_cbc / aescbc to AESxCBC or no longer raises for others%s" % (
+        " (%s)" % why if why else ""))
     return rules
 
 
